@@ -1,10 +1,11 @@
 import CC.Thm.C07
+#print axioms CC.Thm.C07.groestl_conforms
 #print axioms CC.Thm.C07.groestl_conforms_partial
+#print axioms CC.Thm.C07.tf512_is_f
+#print axioms CC.Thm.C07.of512_is_omega
+#print axioms CC.Thm.C07.tf1024_is_f
+#print axioms CC.Thm.C07.of1024_is_omega
 #print axioms CC.Thm.C07.counter_exact
 #print axioms CC.Thm.C07.final_count_exact
-#print axioms CC.Groestl.mul2_eq
-#print axioms CC.Groestl.mixNet_eq
-#print axioms CC.Groestl.aesenclast_zero
-#print axioms CC.Groestl.transpose_inv_transpose
 #print axioms CC.Groestl.spec_256_empty
-#print axioms CC.Groestl.model_512_empty
+#print axioms CC.Groestl.spec_512_empty
